@@ -9,6 +9,7 @@
 package vf
 
 import (
+	"bytes"
 	"encoding/binary"
 	"encoding/json"
 	"errors"
@@ -128,28 +129,28 @@ func (o *Obs) Inconclusive(why string) { o.inconcl = why }
 // statistics
 
 type Stats struct {
-	Property     string                     `json:"property"`
-	Sub          string                     `json:"sub"`
-	Tier         string                     `json:"tier"`
-	Seed         uint64                     `json:"seed"`
-	Shard        int                        `json:"shard"`
-	Rule         string                     `json:"rule"`
-	Exhaustive   bool                       `json:"exhaustive"`
-	Evaluations  int                        `json:"evaluations"`
-	Nontrivial   int                        `json:"nontrivial"`
-	Distinct     int                        `json:"distinct_nontrivial"`
-	Classes      map[string]int             `json:"classes"`
-	Excluded     map[string]int             `json:"excluded,omitempty"`
-	KnownHits    map[string]int             `json:"known_hits,omitempty"`
-	Inconclusive map[string]int             `json:"inconclusive,omitempty"`
-	Samples      []json.RawMessage          `json:"samples"`
-	Floor        float64                    `json:"floor"`
-	ClassFloors  map[string]float64         `json:"class_floors,omitempty"`
-	Failed       bool                       `json:"failed"`
-	FailFile     string                     `json:"fail_file,omitempty"`
-	FailError    string                     `json:"fail_error,omitempty"`
-	HarnessError string                     `json:"harness_error,omitempty"`
-	Requested    int                        `json:"requested"`
+	Property     string             `json:"property"`
+	Sub          string             `json:"sub"`
+	Tier         string             `json:"tier"`
+	Seed         uint64             `json:"seed"`
+	Shard        int                `json:"shard"`
+	Rule         string             `json:"rule"`
+	Exhaustive   bool               `json:"exhaustive"`
+	Evaluations  int                `json:"evaluations"`
+	Nontrivial   int                `json:"nontrivial"`
+	Distinct     int                `json:"distinct_nontrivial"`
+	Classes      map[string]int     `json:"classes"`
+	Excluded     map[string]int     `json:"excluded,omitempty"`
+	KnownHits    map[string]int     `json:"known_hits,omitempty"`
+	Inconclusive map[string]int     `json:"inconclusive,omitempty"`
+	Samples      []json.RawMessage  `json:"samples"`
+	Floor        float64            `json:"floor"`
+	ClassFloors  map[string]float64 `json:"class_floors,omitempty"`
+	Failed       bool               `json:"failed"`
+	FailFile     string             `json:"fail_file,omitempty"`
+	FailError    string             `json:"fail_error,omitempty"`
+	HarnessError string             `json:"harness_error,omitempty"`
+	Requested    int                `json:"requested"`
 	hashes       map[uint64]struct{}
 	sampleAt     int
 }
@@ -673,4 +674,25 @@ func loadFindings() []Finding {
 	}
 	findingsCache = doc.Findings
 	return findingsCache
+}
+
+// Fuzz runs a sub-check under Go's native coverage-guided fuzzer: the fuzzer mutates the
+// byte stream that rapid decodes into the sub-check's generator choices (rapid.MakeFuzz), so
+// every input is still built by the generator. A failing case is saved like in Run.
+func Fuzz[C any](f *testing.F, prop string, s Sub[C]) {
+	loadEnv()
+	f.Add([]byte{})
+	f.Add([]byte("\x01\x02\x03\x04\x05\x06\x07\x08\x09\x0a\x0b\x0c\x0d\x0e\x0f\x10\x11\x12\x13\x14\x15\x16\x17\x18"))
+	f.Add(bytes.Repeat([]byte{0xff, 0x00, 0x7f, 0x80}, 64))
+	f.Fuzz(rapid.MakeFuzz(func(rt *rapid.T) {
+		c := s.Gen(rt)
+		st := newStats(prop, s.Name, "")
+		text, fail := judge(c, s.Check, st, knownFor(prop, s.Name), false, s.StepLimitFails)
+		if fail {
+			if env.Out != "" {
+				saveCase(filepath.Join(env.Out, fmt.Sprintf("fail-fuzz-%s-%d.json", s.Name, os.Getpid())), prop, s.Name, marshal(c), text)
+			}
+			rt.Fatalf("%s/%s: %s", prop, s.Name, text)
+		}
+	}))
 }
